@@ -85,7 +85,7 @@ def gen_op(rng, kinds):
     if k == "delmatch":
         return ["delmatch", pick(PATTERNS)]
     if k == "setlock":
-        return ["setlock", pick(LKEYS + SKEYS[:1]), pick(list(TOKENS)), pick([1, 4, 8, 16, 80])]
+        return ["setlock", pick(LKEYS + SKEYS[:1]), pick(list(TOKENS)), pick([1, 4, 8, 16, 80, None])]     # None: a lock without a lease
     if k == "unlock":
         return ["unlock", pick(LKEYS + SKEYS[:1] + ["S:y"]), pick(list(TOKENS))]
     if k == "islocked":
@@ -205,7 +205,7 @@ def model_line(op, codec: Codec) -> str:
     if n == "delmatch":
         return f"delmatch {hx(op[1])}"
     if n == "setlock":
-        return f"setlock {hx(op[1])} {bytes_tok(TOKENS[op[2]])} {op[3] * MS}"
+        return f"setlock {hx(op[1])} {bytes_tok(TOKENS[op[2]])} {(op[3] or 0) * MS}"       # (0 = no lease: `expire=None`)
     if n == "unlock":
         return f"unlock {hx(op[1])} {bytes_tok(TOKENS[op[2]])}"
     if n == "setadd":
@@ -240,6 +240,14 @@ class Runner:
         self.faults = [tuple(f) for f in faults]
         self.server = rs.LeanServer(drv)
         self.server.down = lambda n: any(a <= n < b for a, b in self.faults)
+        kind = cfg.get("fault", "conn")
+        if kind == "os":
+            self.server.fault_exc = OSError
+        elif kind == "timeout":
+            import asyncio
+            self.server.fault_exc = asyncio.TimeoutError
+        elif kind != "conn":
+            raise HarnessError(f"unknown fault kind {kind}")
 
     async def setup(self):
         from cashews import Cache
@@ -319,7 +327,7 @@ class Runner:
                 await api.delete_match(op[1])
                 return "N", ""
             if n == "setlock":
-                return _bool(await api.set_lock(op[1], TOKENS[op[2]], op[3] / 8)), ""
+                return _bool(await api.set_lock(op[1], TOKENS[op[2]], None if op[3] is None else op[3] / 8)), ""
             if n == "unlock":
                 return _int(await api.unlock(op[1], TOKENS[op[2]])), ""
             if n == "islocked":
